@@ -340,8 +340,9 @@ def run(tier, seed):
                      "(cross-model moves included); the Float case of set_character_data is stated over run_opF: f64::to_string is an ORACLE "
                      "(any function from the 64 bits to a byte string), its digits are not modelled",
                      "C12_no_panic2_histories: histories over the large alphabet op2 are covered for Op1, OpSort, OpSortModel, OpSetVersion, "
-                     "OpCheckCompat, OpSerializeFile, OpSerializeElem; OpDuplicate is covered as a call after such a history (C12_duplicate_after_history, with "
-                     "SizeOk at each of its copies) but not as a step; OpLoad is PENDING (correspondence + fuzzer only)",
+                     "OpCheckCompat, OpSerializeFile, OpSerializeElem; C12_no_panic3_histories adds OpDuplicate as a step when the call returns Ok (with "
+                     "SizeOk at each of its copies); a FAILING duplicate is covered as a call only (it returns; the state after it is outside the "
+                     "invariant); OpLoad is PENDING (correspondence + fuzzer only)",
                      "op_wfv / ver_ok: version arguments are values of AutosarVersion discriminants",
                      "SizeOk: every identifiables map has fewer than 10^39 entries (injectivity of format!(\"{counter}\") in make_unique_item_name)",
                      "check_fn (the regex validators) is total: C19",
